@@ -322,10 +322,10 @@ theorem hdel_absent_key (c : Ctx) (s : State) (k f : Bytes) (fs : List Bytes) (h
 
 /-! ### HINCRBY / HINCRBYFLOAT -/
 
-/-- **HINCRBY adds to an integer field** (sum inside the 64-bit range): the reply is `i + d` and the field
-    holds `i + d`; every other field and key is untouched. Outside the range the stored sum wraps (class
-    `hash-integer-overflow-wraps`, witness below). -/
-theorem hincrby_int_partial (c : Ctx) (s : State) (k f incr : Bytes) (h : KMap Scalar) (ex : Option Int) (i d : Int)
+/-- **HINCRBY adds to an integer field**: whenever the sum fits in 64 bits the reply is `i + d` and the field
+    holds `i + d`; every other field and key is untouched. (A sum outside the range is refused, see
+    `hincrby_overflow_fails` — repaired in /repo by a `fix:` commit; before it the stored sum wrapped around.) -/
+theorem hincrby_int (c : Ctx) (s : State) (k f incr : Bytes) (h : KMap Scalar) (ex : Option Int) (i d : Int)
     (hm : c.cfg.maxMemory = 0)
     (hl : s.lookup c.db k = some ⟨.hash h, ex⟩) (hlive : (⟨.hash h, ex⟩ : Entry).expired c.now = false)
     (hf : h.get f = some (.int i)) (hd : parseInt64 incr = some d)
@@ -335,8 +335,20 @@ theorem hincrby_int_partial (c : Ctx) (s : State) (k f incr : Bytes) (h : KMap S
       ∀ k2, k ≠ k2 → s'.lookup c.db k2 = s.lookup c.db k2 := by
   refine ⟨(setValues c s [(k, .hash (h.put f (.int (i + d))))]).1, ?_, setValues_over c s k _ _ ex hm hl,
     fun k2 hne => setValues_other c s k k2 _ hm hne⟩
+  have h1 : ¬ (i + d < minInt64) := by omega
+  have h2 : ¬ (i + d > maxInt64) := by omega
   simp [handleHIncrBy, hincr_facts, keysExist_single, hl, hd, getValues_live _ _ _ _ hl hlive, asHash?, hf,
-    wrap64_id _ hr.1 hr.2, run_setOrErr_single _ _ _ _ _ hm]
+    h1, h2, run_setOrErr_single _ _ _ _ _ hm]
+
+/-- **HINCRBY whose sum does not fit in 64 bits fails and changes nothing**: for every state, every live hash
+    and every integer field, the reply is the overflow error and the state is the one before the command -/
+theorem hincrby_overflow_fails (c : Ctx) (s : State) (k f incr : Bytes) (h : KMap Scalar) (ex : Option Int) (i d : Int)
+    (hl : s.lookup c.db k = some ⟨.hash h, ex⟩) (hlive : (⟨.hash h, ex⟩ : Entry).expired c.now = false)
+    (hf : h.get f = some (.int i)) (hd : parseInt64 incr = some d)
+    (hr : ¬ (minInt64 ≤ i + d ∧ i + d ≤ maxInt64)) :
+    (handleHIncrBy c [b "hincrby", k, f, incr]).run c s = (s, .done (.err overflowErr)) := by
+  have h1 : i + d < minInt64 ∨ i + d > maxInt64 := by omega
+  simp [handleHIncrBy, hincr_facts, keysExist_single, hl, hd, getValues_live _ _ _ _ hl hlive, asHash?, hf, h1]
 
 /-- **a field the hash does not hold counts as 0**: HINCRBY answers the increment and stores it -/
 theorem hincrby_missing_field (c : Ctx) (s : State) (k f incr : Bytes) (h : KMap Scalar) (ex : Option Int) (d : Int)
@@ -349,8 +361,10 @@ theorem hincrby_missing_field (c : Ctx) (s : State) (k f incr : Bytes) (h : KMap
   have hr := parseInt64_range incr d hd
   refine ⟨(setValues c s [(k, .hash (h.put f (.int d)))]).1, ?_, setValues_over c s k _ _ ex hm hl,
     fun k2 hne => setValues_other c s k k2 _ hm hne⟩
+  have h1 : ¬ (d < minInt64) := by omega
+  have h2 : ¬ (d > maxInt64) := by omega
   simp [handleHIncrBy, hincr_facts, keysExist_single, hl, hd, getValues_live _ _ _ _ hl hlive, asHash?, hf,
-    wrap64_id _ hr.1 hr.2, run_setOrErr_single _ _ _ _ _ hm, KMap.put_put_same]
+    h1, h2, run_setOrErr_single _ _ _ _ _ hm, KMap.put_put_same]
 
 /-- **HINCRBY on a key that does not exist creates the one-field hash** holding the increment -/
 theorem hincrby_absent_key (c : Ctx) (s : State) (k f incr : Bytes) (d : Int)
@@ -683,18 +697,22 @@ theorem hlen_after_hset_absent (c : Ctx) (s : State) (k : Bytes) (args : List By
   rw [h1]
   rw [hlen_length c s' k entries none h2 rfl]
 
-/-- after `HINCRBY k f d` on an integer field (sum in range), `HGET k f` reads the sum -/
-theorem hget_after_hincrby_partial (c : Ctx) (s : State) (k f incr : Bytes) (h : KMap Scalar) (ex : Option Int) (i d : Int)
+/-- after `HINCRBY k f d` on an integer field, `HGET k f` reads the sum when it fits in 64 bits, and the old
+    value when it does not (the command failed) -/
+theorem hget_after_hincrby (c : Ctx) (s : State) (k f incr : Bytes) (h : KMap Scalar) (ex : Option Int) (i d : Int)
     (hm : c.cfg.maxMemory = 0)
     (hl : s.lookup c.db k = some ⟨.hash h, ex⟩) (hlive : (⟨.hash h, ex⟩ : Entry).expired c.now = false)
-    (hf : h.get f = some (.int i)) (hd : parseInt64 incr = some d)
-    (hr : minInt64 ≤ i + d ∧ i + d ≤ maxInt64) :
+    (hf : h.get f = some (.int i)) (hd : parseInt64 incr = some d) :
     ((handleHGet c [b "hget", k, f]).run c ((handleHIncrBy c [b "hincrby", k, f, incr]).run c s).1).2
-      = .done (.ok (arrHdr 1 ++ intReply (i + d))) := by
-  obtain ⟨s', h1, h2, _⟩ := hincrby_int_partial c s k f incr h ex i d hm hl hlive hf hd hr
-  rw [h1]
-  rw [hmget_fields c s' _ k f [] _ ex h2 hlive]
-  simp [hashValReply]
+      = .done (.ok (arrHdr 1 ++ intReply (if minInt64 ≤ i + d ∧ i + d ≤ maxInt64 then i + d else i))) := by
+  by_cases hr : minInt64 ≤ i + d ∧ i + d ≤ maxInt64
+  · obtain ⟨s', h1, h2, _⟩ := hincrby_int c s k f incr h ex i d hm hl hlive hf hd hr
+    rw [h1]
+    rw [hmget_fields c s' _ k f [] _ ex h2 hlive]
+    simp [hashValReply, hr]
+  · rw [hincrby_overflow_fails c s k f incr h ex i d hl hlive hf hd hr]
+    rw [hmget_fields c s _ k f [] _ ex hl hlive]
+    simp [hashValReply, hr, hf]
 
 /-- HSET of field `f` leaves what every other field `g` reads as -/
 theorem hset_frames_other_fields (c : Ctx) (s : State) (k f v g : Bytes) (h : KMap Scalar) (ex : Option Int)
@@ -773,7 +791,7 @@ theorem step_refines (c : Ctx) (s : State) (k : Bytes) (h : KMap Scalar) (ex : O
       simpa [HOp.prog, HOp.reply, HOp.apply, hc] using hincrby_missing_field c s k f incr h ex d hm hl hlive hf hd
     · have hc : curInt h f = i := by simp [curInt, hf]
       rw [hc] at hr
-      simpa [HOp.prog, HOp.reply, HOp.apply, hc] using hincrby_int_partial c s k f incr h ex i d hm hl hlive hf hd hr
+      simpa [HOp.prog, HOp.reply, HOp.apply, hc] using hincrby_int c s k f incr h ex i d hm hl hlive hf hd hr
 
 /-- run a command sequence, collecting the outcomes -/
 def runOps (c : Ctx) (k : Bytes) : List HOp → State → State × List (Outcome Res)
@@ -860,12 +878,14 @@ theorem hset_on_wrong_type_replaces_witness :
     ((handleHSet c [b "hset", b "k", b "f", b "v"]).run c s).1.lookup 0 (b "k")
       = some ⟨.hash [(b "f", .str (b "v"))], none⟩ := by decide
 
-/-- `hash-integer-overflow-wraps`: HINCRBY 1 on a field holding the largest int64 answers the smallest -/
-theorem hincrby_overflow_wraps_witness :
+/-- repaired upstream (was the witness of class `hash-integer-overflow-wraps`, where the reply was the smallest
+    int64): HINCRBY 1 on a field holding the largest int64 fails and leaves the hash as it was; HINCRBY -1 answers
+    the exact integer -/
+theorem hincrby_overflow_replay :
     let c : Ctx := { db := 0, now := 1000 }
     let s : State := { dbs := [(0, ⟨[(b "k", ⟨.hash [(b "n", .int 9223372036854775807)], none⟩)], []⟩)], mem := 0 }
-    ((handleHIncrBy c [b "hincrby", b "k", b "n", b "1"]).run c s).2
-      = .done (.ok (b ":-9223372036854775808\r\n")) := by decide
+    (handleHIncrBy c [b "hincrby", b "k", b "n", b "1"]).run c s = (s, .done (.err overflowErr)) ∧
+    ((handleHIncrBy c [b "hincrby", b "k", b "n", b "-1"]).run c s).2 = .done (.ok (b ":9223372036854775806\r\n")) := by decide
 
 /-- `hincrby-float-typed-field`: HINCRBY on a float-typed field (1.5) adds as a float and answers `+2.5` -/
 theorem hincrby_float_typed_field_witness :
@@ -932,8 +952,10 @@ example := hdel_present c0 s0 (b "k") (b "f") h0 (some 5000) (by decide) (by dec
 example := hdel_missing_field c0 s0 (b "k") (b "zz") h0 (some 5000) (by decide) (by decide) (by decide) (by decide)
 example := hdel_absent_key c0 s0 (b "nokey") (b "f") [] (by decide)
 
-example := hincrby_int_partial c0 s0 (b "k") (b "n") (b "-7") h0 (some 5000) 5 (-7)
+example := hincrby_int c0 s0 (b "k") (b "n") (b "-7") h0 (some 5000) 5 (-7)
   (by decide) (by decide) (by decide) (by decide) (by decide) (by decide)
+example := hincrby_overflow_fails c0 s0 (b "k") (b "n") (b "9223372036854775807") h0 (some 5000) 5 9223372036854775807
+  (by decide) (by decide) (by decide) (by decide) (by decide)
 example := hincrby_missing_field c0 s0 (b "k") (b "zz") (b "3") h0 (some 5000) 3
   (by decide) (by decide) (by decide) (by decide) (by decide)
 example := hincrby_absent_key c0 s0 (b "nokey") (b "n") (b "3") 3 (by decide) (by decide) (by decide)
@@ -978,8 +1000,8 @@ example := hexists_after_hdel c0 s0 (b "k") (b "f") [] h0 (some 5000) (by decide
 example := hget_after_hdel c0 s0 (b "k") (b "f") h0 (some 5000) (by decide) (by decide) (by decide)
 example := hlen_after_hset_absent c0 s0 (b "nokey") [b "f", b "v"] [(b "f", .str (b "v"))]
   (by decide) (by decide) (by decide) (by decide) (by decide)
-example := hget_after_hincrby_partial c0 s0 (b "k") (b "n") (b "-7") h0 (some 5000) 5 (-7)
-  (by decide) (by decide) (by decide) (by decide) (by decide) (by decide)
+example := hget_after_hincrby c0 s0 (b "k") (b "n") (b "-7") h0 (some 5000) 5 (-7)
+  (by decide) (by decide) (by decide) (by decide) (by decide)
 example := hset_frames_other_fields c0 s0 (b "k") (b "g") (b "w") (b "f") h0 (some 5000)
   (by decide) (by decide) (by decide) (by decide) (by decide)
 
